@@ -515,6 +515,11 @@ def onObs (t : T) (x : Obs) : T :=
                   s.pend != b.pend || s.synth != b.synth) .C15
           s!"failed insertion of source {k} changed the loop's bookkeeping"
       | _, _ => t
+    -- C05: "leaves no residue": the wheel holds exactly one entry per armed timer of an enabled source
+    let armedN := (t.srcs.filter fun (p : Nat × ASrc) => p.2.kind == .timer && p.2.status == .enabled && p.2.armed).length
+    let judged := !(t.srcs.any fun (p : Nat × ASrc) => p.2.kind == .timer && (p.2.unknown || p.2.dirty))
+    let t := t.flagIf (judged && !t.inDispatch && s.heap != armedN) .C05
+      s!"the timer wheel holds {s.heap} entries but {armedN} timers are armed: a cancelled or fired arming left residue (or an arming is missing)"
     -- C09 / C07: between operations nothing is deferred (Verif.Props.C09.pending_clear_after_every_history)
     let t := if s.pend != .Continue then
         (t.flag .C09 s!"pending_action is {repr s.pend} between two operations: a deferred post action outlived the event it was requested in").flag
